@@ -68,7 +68,10 @@ type addLeaf struct {
 	cond bool // reached through a phi: present on some paths only
 }
 
-func additiveLeaves(v ssa.Value) []addLeaf {
+func additiveLeaves(v ssa.Value) []addLeaf { return additiveLeavesX(v, false) }
+
+// additiveLeavesX: with expand, offset accessors that are themselves sums are replaced by their own leaves.
+func additiveLeavesX(v ssa.Value, expand bool) []addLeaf {
 	var out []addLeaf
 	seen := map[ssa.Value]bool{}
 	var rec func(v ssa.Value, cond bool, depth int)
@@ -87,6 +90,13 @@ func additiveLeaves(v ssa.Value) []addLeaf {
 			if x.Op == token.ADD {
 				rec(x.X, cond, depth+1)
 				rec(x.Y, cond, depth+1)
+				return
+			}
+		case *ssa.Call:
+			// an offset accessor that is itself a sum of constants and other accessors (payloadOffset() = 2 +
+			// ExtendedPayloadLengthBytes() + MaskBytes()): its leaves
+			if r := additiveGetter(x); expand && r != nil && depth < 8 {
+				rec(r, cond, depth+1)
 				return
 			}
 		case *ssa.Phi:
@@ -224,43 +234,121 @@ func runC07(c *Ctx) {
 			if !isNil(r.Results[1]) {
 				continue
 			}
-			// last store to decodeFrame dominating the return (in Decode, or in a helper the re-slice was moved to)
-			var lastD *deepStore
-			for _, d := range deepStoresTo(dec, decodeFrameF) {
-				d := d
+			// the re-slices that can be the last one before this return (in Decode, or in a helper the re-slice was moved
+			// to): normally one; two when the payload stage is skipped for an empty payload
+			var cands []deepStore
+			all := deepStoresTo(dec, decodeFrameF)
+			for _, d := range all {
 				if isNil(d.Store.Val) {
 					continue
 				}
-				if dominatesInstr(d.Site, r) && (lastD == nil || dominatesInstr(lastD.Site, d.Site)) {
-					lastD = &d
+				d := d
+				if reachAvoiding(d.Site, r, func(x ssa.Instruction) bool {
+					for _, o := range all {
+						if o.Site == x && x != d.Site && !isNil(o.Store.Val) {
+							return true
+						}
+					}
+					return false
+				}) {
+					cands = append(cands, d)
 				}
 			}
 			retLoads := loadOfField(r.Results[0], decodeFrameF)
-			if lastD == nil || !retLoads {
+			if len(cands) == 0 || !retLoads {
 				c.bad(dec, "returned frame", exitPos(r), "the frame returned on success is not the decodeFrame built from the prepared bytes")
 				continue
 			}
-			last := lastD.Site
-			sl, ok := stripConv(lastD.Store.Val).(*ssa.Slice)
-			okShape := ok && sl.Low == nil && sl.High != nil
-			if okShape {
-				if dc, ok := strip(sl.X).(*ssa.Call); !ok || !isCallToFn(dc, data) {
-					okShape = false
+			wantA := "2+4+ExtendedPayloadLengthBytes()+PayloadLength()"         // the 4 counted under IsMasked()
+			wantB := "2+ExtendedPayloadLengthBytes()+MaskBytes()+PayloadLength()" // MaskBytes() is 4 under IsMasked(), else 0
+			var plenCall ssa.Value
+			eachInstr(dec, func(in ssa.Instruction) {
+				if call, ok := in.(*ssa.Call); ok && isCallToFn(call, payloadLen) && plenCall == nil {
+					plenCall = call
+				}
+			})
+			sums := map[ssa.Instruction]string{}
+			for _, d := range cands {
+				if sl, ok := stripConv(d.Store.Val).(*ssa.Slice); ok && sl.High != nil {
+					sums[d.Site] = leafSummary(additiveLeavesX(d.translate(sl.High), true))
 				}
 			}
-			if !okShape {
-				c.bad(dec, "returned frame", last.Pos(), "the frame returned on success is not src.Data()[:k]")
-				continue
+			usesMaskBytes := false
+			for i := range cands {
+				lastD := &cands[i]
+				last := lastD.Site
+				sl, ok := stripConv(lastD.Store.Val).(*ssa.Slice)
+				okShape := ok && sl.Low == nil && sl.High != nil
+				if okShape {
+					if dc, ok := strip(sl.X).(*ssa.Call); !ok || !isCallToFn(dc, data) {
+						okShape = false
+					}
+				}
+				if !okShape {
+					c.bad(dec, "returned frame", last.Pos(), "the frame returned on success is not src.Data()[:k]")
+					continue
+				}
+				high := lastD.translate(sl.High)
+				// k is the argument of a PrepareRead whose success guards the store
+				prepared := preparedFor(dec, prepareRead, lastD, high)
+				c.check(prepared, dec, "returned frame", last.Pos(), "frame length is exactly the amount PrepareRead granted", "the frame returned on success is sliced to a length other than the one PrepareRead just granted: the decoder yields bytes it did not receive or leaves part of the frame behind")
+				sum := sums[last]
+				good := sum == wantA || sum == wantB
+				if sum == wantB {
+					usesMaskBytes = true
+				}
+				with4 := sum
+				if !strings.Contains("+"+sum+"+", "+4+") && !strings.Contains(sum, "MaskBytes()") {
+					// no mask stage on this candidate's paths: whether that is right is the mask rule's business
+					with4 = strings.Replace(sum, "2+", "2+4+", 1)
+					if with4 == wantA {
+						good = true
+					}
+				}
+				if !good && (with4+"+PayloadLength()" == wantA || sum+"+PayloadLength()" == wantA || strings.Replace(wantB, "+PayloadLength()", "", 1) == sum) {
+					// the stage that adds the payload is skipped on this path: sound when it is skipped exactly for an empty
+					// payload, i.e. another candidate carries the full sum under `PayloadLength() > 0`
+					for _, o := range cands {
+						if o.Site == last || (sums[o.Site] != wantA && sums[o.Site] != wantB) {
+							continue
+						}
+						for _, l := range guardsOf(o.Site.Block()) {
+							if op, x, y, ok := l.cmpWith(plenCall); ok && plenCall != nil && stripConv(x) == plenCall && isConstInt(y, 0) && (op == token.GTR || op == token.NEQ) {
+								good = true
+								if sums[o.Site] == wantB {
+									usesMaskBytes = true
+								}
+							}
+						}
+					}
+				}
+				c.check(good, dec, "frame length", last.Pos(), "frame length = "+sum, "the frame length is computed as "+sum+", expected "+wantA+" (header + extended length + mask + payload): the next frame starts at the wrong offset")
 			}
-			high := lastD.translate(sl.High)
-			// k is the argument of a PrepareRead whose success guards the store
-			prepared := preparedFor(dec, prepareRead, lastD, high)
-			c.check(prepared, dec, "returned frame", last.Pos(), "frame length is exactly the amount PrepareRead granted", "the frame returned on success is sliced to a length other than the one PrepareRead just granted: the decoder yields bytes it did not receive or leaves part of the frame behind")
-			sum := leafSummary(additiveLeaves(high))
-			want := "2+4+ExtendedPayloadLengthBytes()+PayloadLength()"
-			c.check(sum == want, dec, "frame length", last.Pos(), "frame length = "+sum, "the frame length is computed as "+sum+", expected "+want+" (header + extended length + mask + payload): the next frame starts at the wrong offset")
+			last := cands[len(cands)-1].Site
 			// mask bytes only when masked
 			maskedOK := false
+			if usesMaskBytes {
+				// spelled with MaskBytes(): that accessor yields the 4 bytes exactly when IsMasked()
+				mb := p.Method("codec/websocket", "Frame", "MaskBytes")
+				four, zero := false, false
+				for _, mr := range returnsOf(mb) {
+					k, isK := constInt(mr.Results[0])
+					masked := false
+					unmasked := true
+					for _, l := range guardsOf(mr.Block()) {
+						if _, pos, ok := callLit(l, isMasked); ok {
+							masked, unmasked = pos, !pos
+						}
+					}
+					if isK && k == 4 && masked {
+						four = true
+					}
+					if isK && k == 0 && unmasked {
+						zero = true
+					}
+				}
+				maskedOK = four && zero && len(returnsOf(mb)) == 2
+			}
 			eachInstr(dec, func(in ssa.Instruction) {
 				bo, ok := in.(*ssa.BinOp)
 				if !ok || bo.Op != token.ADD || !isConstInt(bo.Y, 4) {
@@ -275,7 +363,7 @@ func runC07(c *Ctx) {
 			// ... and on every path on which the mask bit is set
 			eachInstr(dec, func(in ssa.Instruction) {
 				ifi, ok := in.(*ssa.If)
-				if !ok {
+				if !ok || usesMaskBytes {
 					return
 				}
 				cond, pos := normLit(ifi.Cond, true)
@@ -357,7 +445,7 @@ func runC07(c *Ctx) {
 				if last != nil {
 					if sl, ok := stripConv(last.Store.Val).(*ssa.Slice); ok && sl.High != nil {
 						high := last.translate(sl.High)
-						got = leafSummary(additiveLeaves(high))
+						got = leafSummary(additiveLeavesX(high, true))
 						// prepared for that amount?
 						prepared := preparedFor(dec, prepareRead, last, high)
 						// through a helper: the accessor runs only when the helper reported success, and the helper reports
@@ -418,6 +506,20 @@ func runC07(c *Ctx) {
 					prep = pc
 				}
 			}
+			if prep == nil {
+				// the prepare-and-reslice step lives in a helper that reports PrepareRead's failure as its own
+				eachInstr(dec, func(in ssa.Instruction) {
+					call, ok := in.(*ssa.Call)
+					if !ok || !dominatesInstr(in, rc.(ssa.Instruction)) {
+						return
+					}
+					if h := call.Call.StaticCallee(); isHelperOf(dec, h) && containsDeep(h, func(x ssa.Instruction) bool { return isCallToFn(x, prepareRead) }, 1) {
+						if prep == nil || dominatesInstr(prep.(ssa.Instruction), in) {
+							prep = call
+						}
+					}
+				})
+			}
 			uncond := false
 			if prep != nil {
 				base := map[ssa.Value]bool{}
@@ -432,6 +534,10 @@ func runC07(c *Ctx) {
 					}
 					if x, eq, isNilT := l.nilTest(); isNilT && !eq && resolveCell(x) == prep.(ssa.Value) {
 						okFail = true
+						continue
+					}
+					// an empty payload needs no room
+					if op, x, y, ok := l.cmpWith(plen); ok && plen != nil && stripConv(x) == plen && isConstInt(y, 0) && (op == token.GTR || op == token.NEQ) {
 						continue
 					}
 					extra++
@@ -638,4 +744,49 @@ func preparedFor(dec, prepareRead *ssa.Function, last *deepStore, high ssa.Value
 		}
 	}
 	return false
+}
+
+// additiveGetter: the call invokes a single-block method of the analysed packages without parameters other than the
+// receiver whose result is a sum (at least one +) of constants and calls of such accessors on the receiver.
+func additiveGetter(call *ssa.Call) ssa.Value {
+	h := call.Call.StaticCallee()
+	if h == nil || h.Blocks == nil || len(h.Blocks) != 1 || len(h.Params) != 1 || !strings.HasPrefix(h.Pkg.Pkg.Path(), modPath) {
+		return nil
+	}
+	var res ssa.Value
+	for _, in := range h.Blocks[0].Instrs {
+		switch x := in.(type) {
+		case *ssa.BinOp:
+			if x.Op != token.ADD {
+				return nil
+			}
+		case *ssa.Call:
+			if x.Call.StaticCallee() == nil || len(x.Call.Args) != 1 {
+				return nil
+			}
+			a := stripConv(x.Call.Args[0])
+			if u, ok := a.(*ssa.UnOp); ok && u.Op == token.MUL {
+				a = stripConv(u.X) // the accessor has a pointer receiver and calls value-receiver accessors on *f
+			}
+			if a != ssa.Value(h.Params[0]) {
+				return nil
+			}
+		case *ssa.UnOp:
+			if x.Op != token.MUL || stripConv(x.X) != ssa.Value(h.Params[0]) {
+				return nil
+			}
+		case *ssa.Convert, *ssa.ChangeType, *ssa.DebugRef:
+		case *ssa.Return:
+			if len(x.Results) != 1 {
+				return nil
+			}
+			res = x.Results[0]
+		default:
+			return nil
+		}
+	}
+	if _, isSum := stripConv(res).(*ssa.BinOp); !isSum {
+		return nil
+	}
+	return res
 }
